@@ -1,4 +1,5 @@
 import DiffxVerif.Lemmas.Codec
+import DiffxVerif.Lemmas.CodecSame
 import DiffxVerif.Tie.Boms
 /-!
 # C15 — Newline and BOM handling depends on the codec, not on how its name is spelled
@@ -30,6 +31,26 @@ theorem C15_guess_spelling (env : Env) (cfg : Config) (ln : Nat) (content : Byte
     (h : SameCodec env n₁ n₂) (hok : ∃ c, env.canon n₁ = .ok c) :
     Reader.guessLineEndings env cfg ln content (some n₁) = Reader.guessLineEndings env cfg ln content (some n₂) :=
   guess_same env cfg ln content n₁ n₂ h hok
+
+/-- **Whole content section, reader**: two spellings of one codec give the same
+result of `_read_content` (same text or error, same bytes consumed, same line count). -/
+theorem C15_read_spelling (env : Env) (cfg : Config) (st : Reader.St) (len : Nat) (b₁ b₂ : Bytes)
+    (ind le : Option OptVal) (kb : Bool)
+    (h : SameCodec env (Name.ofBytes b₁) (Name.ofBytes b₂))
+    (hok : ∃ c, env.canon (Name.ofBytes b₁) = .ok c) :
+    Reader.readContent env cfg st len (some (.str b₁)) ind le kb =
+      Reader.readContent env cfg st len (some (.str b₂)) ind le kb :=
+  readContent_same env cfg st len b₁ b₂ ind le kb h hok
+
+/-- **Whole content section, writer**: the prepared bytes are the same under
+both spellings (the header differs only in the spelled name). -/
+theorem C15_write_spelling (env : Env) (cfg : Config) (st : Writer.St) (content : Writer.Arg)
+    (indent : Option Int) (le : Option Text) (n₁ n₂ : Name) (inherit : Bool)
+    (ht : Writer.truthy (some n₁) = true) (ht2 : Writer.truthy (some n₂) = true)
+    (h : SameCodec env n₁ n₂) (hok : ∃ c, env.canon n₁ = .ok c) :
+    Writer.prepareContent env cfg st content indent le (some n₁) inherit =
+      Writer.prepareContent env cfg st content indent le (some n₂) inherit :=
+  prepareContent_same env cfg st content indent le n₁ n₂ inherit ht ht2 h hok
 
 /-- **BOM-free.** For a codec that prepends `bom` when encoding, if the BOM table
 has an adequate row under the codec's canonical name, the newline the library
